@@ -212,6 +212,15 @@ func (g *gen) pos(n int) int {
 	return g.r.Intn(2*n+7) - n - 3
 }
 
+// minimum distance between the two columns: small, and sometimes negative (the unrepaired code
+// panicked there with a negative strings.Repeat count, D17)
+func (g *gen) gap() int {
+	if g.chance(0.15) {
+		return -1 - g.r.Intn([]int{2, 8, 60}[g.r.Intn(3)])
+	}
+	return g.r.Intn(5)
+}
+
 func (g *gen) width() int {
 	if g.chance(0.08) {
 		return g.r.Intn(5) - 3
@@ -804,7 +813,7 @@ func (g *gen) groupTwoCol(n int) {
 			l = " "
 		}
 		_ = ps
-		gap := g.r.Intn(5)
+		gap := g.gap()
 		w := g.width()
 		if g.chance(0.3) {
 			w = gap + 2 + g.r.Intn(8)
@@ -937,7 +946,7 @@ func (g *gen) groupOptions2(n int) {
 		case 6:
 			op = fmt.Sprintf("applypara,%%d,%d,%%s", g.r.Intn(6))
 		case 7:
-			op = fmt.Sprintf("twocol,%%d,%s,%s,%s,%d,%d,%s,%%s", encInt(g.pos(4)), encText(g.para(mode, ls, 2)), encText(g.para(mode, ls, 2)), g.r.Intn(4), g.width(), encPct(g.pct()))
+			op = fmt.Sprintf("twocol,%%d,%s,%s,%s,%d,%d,%s,%%s", encInt(g.pos(4)), encText(g.para(mode, ls, 2)), encText(g.para(mode, ls, 2)), g.gap(), g.width(), encPct(g.pct()))
 		case 8:
 			defs := [][2]string{{g.word(mode, 4), g.line(mode, 5)}, {g.word(mode, 4), g.line(mode, 5)}}
 			op = fmt.Sprintf("deftable,%%d,%s,%s,%d,%%s", encInt(g.pos(4)), encDefs(defs), g.width())
@@ -1162,7 +1171,7 @@ func (g *gen) groupRel(n int) {
 			s1, s2 = mk(func(map[string]string) string { return fmt.Sprintf("chars,%%d,%s,%s", encInt(a), encInt(b)) })
 		case 8, 9:
 			l, r := g.relTextGen(ls, 2), g.relTextGen(ls, 2)
-			p, gap, w, pc := g.pos(cc), g.r.Intn(4), g.width(), encPct(g.pct())
+			p, gap, w, pc := g.pos(cc), g.gap(), g.width(), encPct(g.pct())
 			s1, s2 = mk(func(rr map[string]string) string {
 				return fmt.Sprintf("twocol,%%d,%s,%s,%s,%d,%d,%s,=", encInt(p), encText(l.str(rr)), encText(r.str(rr)), gap, w, pc)
 			})
@@ -1310,7 +1319,7 @@ func (g *gen) groupProgZ(n int) {
 		case 7:
 			step = fmt.Sprintf("insert,0,%s,%s", encInt(g.pos(8)), encText(g.word(mode, 3)))
 		case 8:
-			step = fmt.Sprintf("twocol,0,%s,%s,%s,%d,%d,%s,%s", encInt(g.pos(4)), encText(g.para(mode, ls, 2)), encText(g.para(mode, ls, 2)), g.r.Intn(4), g.width(), encPct(g.pct()), g.optsArg(o))
+			step = fmt.Sprintf("twocol,0,%s,%s,%s,%d,%d,%s,%s", encInt(g.pos(4)), encText(g.para(mode, ls, 2)), encText(g.para(mode, ls, 2)), g.gap(), g.width(), encPct(g.pct()), g.optsArg(o))
 		case 9:
 			data := [][]string{{g.word(mode, 3), ""}, {g.word(mode, 2)}, {"", g.word(mode, 3), g.word(mode, 1)}, {}}
 			step = fmt.Sprintf("table,0,%s,%s,%d,%s", encInt(g.pos(4)), encTable(data[:1+g.r.Intn(4)]), g.width(), g.optsArg(o))
